@@ -3,7 +3,7 @@ import json, os
 import vcheck as V
 from props import common
 
-THEOREMS = ["C09_holds", "C09_deliver_never_panics", "C09_begin_never_panics", "C09_end_never_panics", "C09_supply_bound_needed"]
+THEOREMS = ["C09_holds", "C09_deliver_never_panics", "C09_begin_never_panics", "C09_end_never_panics", "C09_supply_bound_needed", "C09_holds_closed", "C09_holds_inputs", "C09_run_facts_reachable"]
 PROPS_V = "theories/Props/C09.v"
 
 
